@@ -63,6 +63,7 @@ Row ==
               "dump@(A@, 3 * " \o N \o "); dump@(B@, 3 * " \o N \o "); dump@(&S@, " \o N \o "); (void)vi; (void)vj; (void)P; (void)Q;">>,
    pr |-> << <<" %d", "(int)sizeof (" \o tn \o ")">> >>,
    exp |-> <<HexArr(r.A), HexArr(r.B), HexSeq(r.S, 1), N>>,
+   desc |-> TypeDecl(n, kd) \o " " \o tn \o " A[3], B[3], S, *P = A, *Q = B; (every byte distinct) " \o Stmt \o " with vi = " \o NS(i) \o ", vj = " \o NS(j),
    sig |-> form \o ":" \o kd \o N \o ":" \o md, d |-> 1]
 Init == lvl = 0 /\ n = 1 /\ kd = "s" /\ form = "aa" /\ i = 0 /\ j = 0 /\ md = "c"
 Next == lvl = 0 /\ lvl' = 1 /\ n' \in {x \in Sizes : (x % NParts) = Part \/ NParts = 1} /\ kd' \in KindsOf(n') /\ form' \in Forms
